@@ -770,7 +770,8 @@ pub const FILE_NOS: [usize; 8] = [0, 1, 2, 7, 255, 256, 65_536, 4_000_000_000];
 
 fn gen_op(rng: &mut Rng, names: &[String], focus: &[String]) -> Op {
     if rng.chance(3, 5) {
-        let cat = *rng.pick(&CATS);
+        // consecutive calls often share category and file number (what a directory walk does)
+        let cat = if rng.chance(1, 2) { Cat::Opt } else { *rng.pick(&CATS) };
         let d = defaults(cat);
         let text = if !focus.is_empty() && rng.chance(2, 3) {
             rng.pick(focus).clone()
@@ -779,7 +780,7 @@ fn gen_op(rng: &mut Rng, names: &[String], focus: &[String]) -> Op {
         };
         Op::File {
             text,
-            file_no: *rng.pick(&FILE_NOS),
+            file_no: if rng.chance(1, 2) { 0 } else { *rng.pick(&FILE_NOS) },
             pat: rng.pick(&d).label(),
         }
     } else {
@@ -830,6 +831,17 @@ pub fn gen_scn(rng: &mut Rng, names: &[String]) -> Scn {
     let mut focus: Vec<String> = vec![];
     for _ in 0..rng.range(1, 3) {
         focus.push(rng.pick(names).clone());
+    }
+    // equal-length twins travel together
+    let eq: Vec<String> = names.iter().filter(|n| n.starts_with("eq")).cloned().collect();
+    if !eq.is_empty() && rng.chance(1, 2) {
+        let a = rng.pick(&eq).clone();
+        let twin = if a.ends_with("a.sol") {
+            a.replace("a.sol", "b.sol")
+        } else {
+            a.replace("b.sol", "a.sol")
+        };
+        focus = vec![a, twin];
     }
     if rng.chance(1, 3) {
         // fine-grained: direct calls only, interleaved inside the calls; prefer the deeply nested texts
@@ -936,6 +948,33 @@ pub fn gen_pool(seed: u64, n: usize) -> BTreeMap<String, String> {
         }
         pool.insert(format!("p{}.sol", pool.len()), t);
         i += 1;
+    }
+    // pairs of DIFFERENT texts padded to exactly the same byte length (a trailing comment line):
+    // whatever identifies a file by its size, position or number alone confuses them
+    let base: Vec<String> = pool.values().cloned().collect();
+    let mut k = 0;
+    while k + 1 < base.len() && k < 8 {
+        let (mut a, mut b) = (base[k].clone(), base[k + 1].clone());
+        if a != b {
+            let (la, lb) = (a.len(), b.len());
+            let pad = |t: &mut String, n: usize| {
+                if n >= 3 {
+                    t.push_str("//");
+                    t.push_str(&"x".repeat(n - 3));
+                    t.push('\n');
+                }
+            };
+            if la < lb {
+                pad(&mut a, lb - la);
+            } else if lb < la {
+                pad(&mut b, la - lb);
+            }
+            if a.len() == b.len() && screen.ok(&a) && screen.ok(&b) {
+                pool.insert(format!("eq{}a.sol", k / 2), a);
+                pool.insert(format!("eq{}b.sol", k / 2), b);
+            }
+        }
+        k += 2;
     }
     for (k, depth) in [10usize, 18, 26, 32].iter().enumerate() {
         let t = deep_text(*depth, k);
@@ -1300,7 +1339,7 @@ impl Property for C15 {
         ]
     }
     fn rule(&self) -> String {
-        format!("Baseline: for a seeded pool of screened texts (incl. pairs of equal length with different line structure) every (text, default pattern) verdict is computed by one call in a fresh child process. Each evaluation is one scenario of a chain: a chain is {} scenarios executed in one child process with nothing reset in between; a scenario is 2-4 tasks on real OS threads passing a baton (the seeded order says which thread performs the next operation), operations are analyze_for_*(text, arbitrary file_no, pattern), repeated calls, and analyze_dir over private worlds embedding pool files (unique names) among varying siblings, depths, listing orders, pattern subsets and orders. A third of the scenarios are fine-grained: 2-5 threads make direct calls (preferring deeply nested texts, 10-32 levels) and the baton changes hands at the cooperative yield points inside the AST walker (guarded hook), with a seeded switch probability of 1/2 .. 1/64 per point, so calls of different threads are interleaved mid-walk, one thread running at a time. Every observation (direct result, or the entry/absence attributable to that file in a directory result) must equal the baseline. Non-trivial = the chain contains a task switch between two operations touching the same text; distinct = distinct baton order. Replay and every minimisation step run in a fresh process and recompute the baseline.", SCN_PER_CHAIN)
+        format!("Baseline: for a seeded pool of screened texts (incl. pairs of equal length with different line structure and pairs of different texts padded to equal length) every (text, default pattern) verdict is computed by one call in a fresh child process. Each evaluation is one scenario of a chain: a chain is {} scenarios executed in one child process with nothing reset in between; a scenario is 2-4 tasks on real OS threads passing a baton (the seeded order says which thread performs the next operation), operations are analyze_for_*(text, arbitrary file_no, pattern), repeated calls, and analyze_dir over private worlds embedding pool files (unique names) among varying siblings, depths, listing orders, pattern subsets and orders. A third of the scenarios are fine-grained: 2-5 threads make direct calls (preferring deeply nested texts, 10-32 levels) and the baton changes hands at the cooperative yield points inside the AST walker (guarded hook), with a seeded switch probability of 1/2 .. 1/64 per point, so calls of different threads are interleaved mid-walk, one thread running at a time. Every observation (direct result, or the entry/absence attributable to that file in a directory result) must equal the baseline. Non-trivial = the chain contains a task switch between two operations touching the same text; distinct = distinct baton order. Replay and every minimisation step run in a fresh process and recompute the baseline.", SCN_PER_CHAIN)
     }
     fn assumptions(&self) -> Vec<String> {
         vec![
